@@ -2,6 +2,7 @@
 from __future__ import annotations
 
 import copy
+import html as _html
 import random
 import re
 from fractions import Fraction
@@ -42,7 +43,8 @@ TRUSTED = [
     "translator GenTemplates: Jinja's own lexer (env.lex) classifies every {{ }} sink of the site templates; "
     "Jinja's autoescape engine and markupsafe.escape themselves are runtime (modelled: & < > \" ' -> "
     "&amp; &lt; &gt; &#34; &#39;)",
-    "libxml2's re-serialisation in postprocess_html and site-level sinks (titles, breadcrumbs) are outside this check",
+    "site pages: Jinja's engine and libxml2's re-serialisation in postprocess_html are runtime, observed by suite "
+    "sitesinks (oracle on the generated pages + model of markupsafe.escape on the emitted texts), not modelled",
     "correspondence harness rgv/props/C10.py, rgv/gen/trees.py, ser.py, in-Coq comparison",
 ]
 ASSUMPTIONS = [
@@ -55,7 +57,11 @@ RULE = ("cells: random recipe trees (shared generator shapes) decorated with adv
         "entities and tags) in ingredient names, step descriptions, output names, free-form units, prepositions, "
         "remainder wordings and id prefixes, every quantity / proportion form, known units in mixed case (with "
         "alternative-unit lists); layout rows taken from the implementation; tok: the rendered tables through the "
-        "tokenizer specification vs html.parser; escape/tfun: quoteattr, html.escape and t() on random strings. "
+        "tokenizer specification vs html.parser; escape/tfun: quoteattr, html.escape and t() on random strings; "
+        "sitesinks: small generated sites whose recipe / category / site titles (via Markdown, incl. titles that "
+        "decode to <b> and quotes), directory names and file names are adversarial, each compared token by token "
+        "with its alphabetic twin site (same structure, texts = the original strings, hrefs = the quoted paths) and "
+        "the texts Jinja emitted compared with the model of markupsafe.escape. "
         "Non-trivial = contains a character outside [A-Za-z0-9 ]; distinct = distinct input")
 
 ADV = ["a", "b", "Z", " ", " ", "<", ">", "&", '"', "'", "\\", "{", "}", "%", "#", "/", "-", "_", ".", "*", ";", "=",
@@ -453,6 +459,188 @@ def tfun_case(tag: str, body: Optional[str], attrs: List[Tuple[str, str]]) -> Ca
                 tags=["tfun", "tfun:newline" if body and "\n" in body else "tfun:plain"])
 
 
+# ---------------------------------------------------------------- suite: sitesinks (titles, breadcrumbs, list entries, hrefs)
+
+SITE_TITLES = ["Tikka & Masala", "It's \"good\"", "x > y", "a < b", "R&D \"q\" 'single'", "50 # hash", "semi; colon=",
+               "back\\slash", "日本のカレー", "Crème brûlée",
+               "\U0001F35D pasta", "&amp; entity", "&lt;b&gt;", "</title><script>x</script>".replace("<", "＜").replace(">", "＞"),
+               "a  two  spaces", "tab\tin", "quote\" onmouseover=\"x", "apos' onmouseover='x", "Plain", "Zebra", "apple"]
+README_TITLES = ["{{ jinja }}", "{% block %} 100%", "{# comment #}", "&quot;quoted&quot; &#60;i&#62;"]   # source text
+SITE_DIRS = ["pasta", "Indian Mains", "sides&dips", "it's", 'say "hi"', "q?r", "a#b dir", "100%", "50%25 off",
+             "日本料理", "Crème brûlée", "a+b", "semi;colon", "eq=als", "<b>bold<", "back\\slash",
+             "{{x}}", "a&amp;b", "x>y", "'single'", "tab\tdir", "Kelvin", "emoji\U0001F35D", "&#60;"]
+SITE_STEMS = ["spag bol", "q?r", "a#b", "100%", "it's", 'quo"te', "a&b", "日本", "a+b", "x;y", "<i>it<", "a>b",
+              "{{y}}", "&lt;", "e=mc2", "'s'", "back\\sl", "x.html", "%41", "plain"]
+
+
+def _tok(prefix: str, i: int) -> str:
+    return prefix + "q" + chr(97 + i // 26) + chr(97 + i % 26)
+
+
+def gen_sink_site(rng: random.Random) -> Dict[str, Any]:
+    """A small valid site; every directory name, file stem and title adversarial and distinct."""
+    from ..gen import sitegen as SG
+    titles = rng.sample(SITE_TITLES, len(SITE_TITLES))
+    readme_titles = rng.sample(README_TITLES, len(README_TITLES))
+    dirs = rng.sample(SITE_DIRS, 6)
+    stems = rng.sample(SITE_STEMS, 8)
+
+    def recipe(stem: str, title: str) -> Any:
+        serv = rng.choice((1, 2))
+        return SG.F(stem + ".md", text=f"# {title} for {serv}\n\nSome prose.\n\n    {serv * 100}g flour\n    2 eggs\n")
+
+    def directory(name: str, with_readme: bool, nrec: int, sub: Any = None) -> Any:
+        ch = []
+        if with_readme:
+            rt = readme_titles.pop() if (readme_titles and rng.random() < 0.4) else titles.pop()
+            ch.append(SG.F("README.md", text=f"# {rt}\n\nA description with *emphasis*.\n"))
+        for _ in range(nrec):
+            ch.append(recipe(stems.pop(), titles.pop()))
+        if sub is not None:
+            ch.append(sub)
+        rng.shuffle(ch)
+        return SG.D(name, ch)
+
+    # every directory has a README: listings are sorted by title, and the twin keeps the titles' order
+    sub = directory(dirs.pop(), True, rng.choice((1, 2)))
+    top = [directory(dirs.pop(), True, rng.choice((1, 2)), sub), directory(dirs.pop(), True, 1)]
+    if rng.random() < 0.5:
+        top.append(recipe(stems.pop(), titles.pop()))
+    src = SG.D("src", [SG.F("README.md", text=f"# {titles.pop()}\n\nWelcome to the site.\n")] + top)
+    return {"M": 2, "input": ["src"], "profile": "valid", "base": SG.D("", [src])}
+
+
+def _site_strings(site: Dict[str, Any]):
+    """(titles, README-less directories, directory names, file stems) in the site."""
+    titles, bare, dirs, stems = [], [], [], []
+
+    def go(n, top=False):
+        if n["k"] == "d":
+            if not top:
+                dirs.append(n["name"])
+                if not any(c["k"] == "f" and c["name"] == "README.md" for c in n["ch"]):
+                    bare.append(n["name"])
+            for c in n["ch"]:
+                go(c)
+        elif n["name"].endswith(".md"):
+            m = re.match(r"# (.*?)( for [0-9]+)?\n", n["text"])
+            titles.append(_html.unescape(m.group(1)))            # type: ignore[union-attr]   (the title Markdown yields)
+            if n["name"] != "README.md":
+                stems.append(n["name"][:-3])
+    go(site["base"]["ch"][0], top=True)
+    return titles, bare, dirs, stems
+
+
+def twin_site(site: Dict[str, Any]):
+    """The same site with every title / directory name / file stem replaced by an alphabetic token; tokens are
+    assigned in the sort order of the originals so that title-sorted listings keep their order."""
+    import copy
+    titles, bare, dirs, stems = _site_strings(site)
+    tmap = {x: _tok("T", i) for i, x in enumerate(sorted(set(titles)))}
+    dmap = {x: _tok("D", i) for i, x in enumerate(sorted(set(dirs)))}
+    fmap = {x: _tok("F", i) for i, x in enumerate(sorted(set(stems)))}
+    tw = copy.deepcopy(site)
+
+    def go(n, top=False):
+        if n["k"] == "d":
+            for c in n["ch"]:
+                go(c)
+            if not top:
+                n["name"] = dmap[n["name"]]
+        elif n["name"].endswith(".md"):
+            m = re.match(r"# (.*?)( for [0-9]+)?\n", n["text"])
+            n["text"] = "# " + tmap[_html.unescape(m.group(1))] + (m.group(2) or "") + "\n" + n["text"][m.end():]   # type: ignore[union-attr]
+            if n["name"] != "README.md":
+                n["name"] = fmap[n["name"][:-3]] + ".md"
+    go(tw["base"]["ch"][0], top=True)
+    return tw, tmap, dmap, fmap, bare
+
+
+SINK_RE = re.compile(r"<title>(.*?)</title>|<h1(?: class=\"logo\")?>(.*?)</h1>|<li><a href=\"[^\"]*\">(.*?)</a></li>", re.S)
+
+
+def raw_sinks(page: str) -> List[str]:
+    return [next(g for g in m.groups() if g is not None) for m in SINK_RE.finditer(page)]
+
+
+def sitesinks_case(inp: Dict[str, Any]) -> Case:
+    import html as H
+    from urllib.parse import unquote
+    from .. import site_common as SC
+    from recipe_grid.static_site.recipe_directory import dirname_to_title
+    site = inp["site"]
+    tw, tmap, dmap, fmap, bare = twin_site(site)
+    obs, obs2 = SC.run_site(site), SC.run_site(tw)
+    viol: Optional[str] = None
+    expected: List[str] = []
+    emitted: List[str] = []
+    inv_text = {v: k for k, v in tmap.items()}
+    for d in bare:                       # a directory without README is listed under dirname_to_title(name)
+        inv_text[dirname_to_title(dmap[d])] = dirname_to_title(d)
+    inv_path = {v: k for k, v in dmap.items()}
+    inv_path.update({v + ".html": k + ".html" for k, v in fmap.items()})
+    tok_re = re.compile("|".join(sorted(map(re.escape, inv_text), key=len, reverse=True)) or "(?!x)x")
+
+    def untwin_text(x: str) -> str:
+        return tok_re.sub(lambda m: inv_text[m.group(0)], x)
+
+    def untwin_path(x: str) -> str:
+        return "/".join(inv_path.get(c, c) for c in x.split("/"))
+
+    if "error" in obs or "error" in obs2:
+        viol = f"site generation failed: {obs.get('error')} / twin {obs2.get('error')}: {obs.get('message')}"
+    else:
+        pages = sorted(p for p in obs["files"] if p.endswith(".html"))
+        pages2 = {untwin_path(p): p for p in obs2["files"] if p.endswith(".html")}
+        if sorted(pages2) != pages:
+            viol = f"pages differ from the pages of the alphabetic twin site: {sorted(set(pages) ^ set(pages2))[:4]}"
+        for p in pages:
+            if viol:
+                break
+            a = parse_html(obs["_raw"][p].decode("utf-8"))
+            b = parse_html(obs2["_raw"][pages2[p]].decode("utf-8"))
+            if skeleton(a) != skeleton(b):
+                viol = f"{p}: element structure differs from the structure of the alphabetic twin site"
+                break
+            for x, y in zip(a, b):
+                if x[0] == "text" and x[1] != untwin_text(y[1]):
+                    viol = f"{p}: text {x[1]!r} is not the original string(s) {untwin_text(y[1])!r}"
+                elif x[0] == "start":
+                    names = [k for k, _ in x[2]]
+                    if len(set(names)) != len(names):
+                        viol = f"{p}: duplicate attribute in <{x[1]}>"
+                    for (k, v), (_, w) in zip(x[2], y[2]):
+                        if v is None or w is None:
+                            if v != w:
+                                viol = f"{p}: attribute {k} without value"
+                        elif k in ("href", "src"):
+                            if unquote(v) != untwin_path(unquote(w)):
+                                viol = f"{p}: {k}={v!r} is not the link {untwin_path(unquote(w))!r}"
+                        elif v != untwin_text(w):
+                            viol = f"{p}: attribute {k}={v!r}, expected {untwin_text(w)!r}"
+                if viol:
+                    break
+            is_recipe = not p.endswith("index.html")
+            ra, rb = raw_sinks(obs["_raw"][p].decode("utf-8")), raw_sinks(obs2["_raw"][pages2[p]].decode("utf-8"))
+            if is_recipe:
+                ra, rb = ra[:1], rb[:1]                  # only <title>: the body of a recipe page is not a Jinja sink
+            if len(ra) != len(rb) and not viol:
+                viol = f"{p}: {len(ra)} interpolated texts, twin has {len(rb)}"
+            for x, y in zip(ra, rb):
+                expected.append(untwin_text(H.unescape(y)))
+                emitted.append(x)
+    tags = ["sitesinks"]
+    blob = " ".join(_site_strings(site)[0] + _site_strings(site)[2] + _site_strings(site)[3])
+    for ch, tg in (("<", "lt"), ("&", "amp"), ('"', "dquote"), ("'", "squote"), ("#", "hash"), ("%", "percent"), ("{", "brace")):
+        if ch in blob:
+            tags.append("sitesinks:" + tg)
+    return Case(input={"suite": "sitesinks", "site": site},
+                coq_in=coqio.lst([coqio.string(x) for x in expected], "str"),
+                coq_out=coqio.lst([coqio.string(x) for x in emitted], "str"),
+                impl={"texts": len(emitted), "pages": len(obs.get("files", []))}, violation=viol,
+                nontrivial=True, tags=tags)
+
+
 def _suites_empty() -> Dict[str, Suite]:
     imp = ["From RG Require Import Gen.GenUnits Model.Recipe Model.Table Model.Units Model.Html Model.HtmlTok."]
     return {
@@ -462,6 +650,8 @@ def _suites_empty() -> Dict[str, Suite]:
         "quoteattr": Suite("quoteattr", imp, "str", "str", "check_quoteattr", show="quoteattr", shard=400),
         "escape": Suite("escape", imp, "str", "str", "check_html_escape", show="html_escape", shard=400),
         "markup": Suite("markup", imp, "str", "str", "check_markup_escape", show="markup_escape", shard=400),
+        "sitesinks": Suite("sitesinks", imp, "list str", "list str", "check_markup_list",
+                           show="(map markup_escape)", shard=6),
         "tfun": Suite("tfun", imp, "str * option str * list (str * str)", "str", "check_t",
                       show="(fun i => let '(a, b, c) := i in t a b c)", shard=200),
     }
@@ -502,6 +692,8 @@ def suites(tier: str, seed: int) -> List[Suite]:
             "".join(rng.choice(ADV + ["\n", "\n", "\r", " ", "\x0c", "\x1c"]) for _ in range(rng.randrange(0, 12)))
         ks = rng.sample(names, rng.randrange(0, 4))
         S["tfun"].cases.append(tfun_case(rng.choice(["td", "span", "a", "x-y"]), body, [(k, rand_text(rng, 0, 6)) for k in ks]))
+    for _ in range(24 if tier == "quick" else 120):
+        S["sitesinks"].cases.append(sitesinks_case({"site": gen_sink_site(rng)}))
     for su in S.values():
         seen2 = set()
         uniq = []
@@ -522,6 +714,8 @@ def replay(inp: Any) -> Case:
         return tok_case(inp["html"])
     if su in ("quoteattr", "escape", "markup"):
         return escape_case(su, inp["text"])
+    if su == "sitesinks":
+        return sitesinks_case({"site": inp["site"]})
     if su == "tfun":
         return tfun_case(inp["tag"], inp["body"], [tuple(a) for a in inp["attrs"]])
     raise ValueError(inp)
